@@ -249,11 +249,18 @@ def load_many(lit: LineIterator) -> Iterator[dict]:
     """Do not edit this docstring. It will be overwritten."""
     # PDB files with more molecules are a simple concatenation of individual PDB files,'
     # making it trivial to load many frames.
-    try:
-        while True:
-            yield load_one(lit)
-    except (StopIteration, LoadError):
-        return
+    nframe = 0
+    while True:
+        try:
+            data = load_one(lit)
+        except LoadError:
+            # Without any molecule, this is not a PDB file. After the last
+            # molecule, only records without atoms (e.g. END) are left.
+            if nframe == 0:
+                raise
+            return
+        yield data
+        nframe += 1
 
 
 def _dump_multiline_str(f: TextIO, key: str, value: str):
